@@ -177,16 +177,17 @@ def isSingle (ht : Nat) : Bool := baseType ht == Gen.SigHash.SINGLE
 def blankOut : TxOut := ⟨-1, []⟩
 def dfltIn : TxIn := ⟨⟨[], 0⟩, [], 0⟩
 
+/-- "In case of SIGHASH_ANYONECANPAY, only the input being signed is serialized" -/
+def legacyIdx (nIn ht nInput : Nat) : Nat := if anyoneCanPay ht then nIn else nInput
+
 /-- what `SerializeInput(nInput)` writes, as the input it is the serialization of -/
-def legacyIn (sc : Bytes) (tx : Tx) (nIn ht nInput : Nat) : TxIn :=
-  -- "In case of SIGHASH_ANYONECANPAY, only the input being signed is serialized"
-  let j := if anyoneCanPay ht then nIn else nInput
-  let inp := tx.vin.getD j dfltIn
-  { prev := inp.prev
-    -- "Serialize the script": blank for the others, the script code less its separators for ours
-    scriptSig := if j ≠ nIn then [] else withoutCodeSeparators sc
-    -- "let the others update at will" under SINGLE and NONE
-    sequence := if j ≠ nIn ∧ (isSingle ht ∨ isNone ht) then 0 else inp.sequence }
+def legacyIn (sc : Bytes) (tx : Tx) (nIn ht nInput : Nat) : TxIn where
+  prev := (tx.vin.getD (legacyIdx nIn ht nInput) dfltIn).prev
+  -- "Serialize the script": blank for the others, the script code less its separators for ours
+  scriptSig := if legacyIdx nIn ht nInput ≠ nIn then [] else withoutCodeSeparators sc
+  -- "let the others update at will" under SINGLE and NONE
+  sequence := if legacyIdx nIn ht nInput ≠ nIn ∧ (isSingle ht ∨ isNone ht) then 0
+    else (tx.vin.getD (legacyIdx nIn ht nInput) dfltIn).sequence
 
 /-- what `SerializeOutput(nOutput)` writes -/
 def legacyOut (tx : Tx) (nIn ht nOutput : Nat) : TxOut :=
@@ -278,24 +279,46 @@ def bip341Defined (tx : Tx) (nIn : Nat) (spent : List TxOut) (ht : Nat) : Bool :
 def spendType (ext : Option TapExt) (annex : Option Bytes) : UInt8 :=
   UInt8.ofNat ((if ext.isSome then 2 else 0) + (if annex.isSome then 1 else 0))
 
+/-- sha_prevouts, sha_amounts, sha_scriptpubkeys, sha_sequences: "if hash_type & 0x80 ≠ ANYONECANPAY" -/
+def tapTxHashes (S : Bytes → Bytes) (tx : Tx) (spent : List TxOut) (ht : Nat) : Bytes :=
+  if !tapAcp ht then
+    S (serPrevouts tx) ++ (S (serAmounts spent) ++ (S (serScriptPubKeys spent) ++ S (serSequences tx)))
+  else []
+
+/-- sha_outputs: "if hash_type & 3 is neither NONE nor SINGLE" -/
+def tapOutputsHash (S : Bytes → Bytes) (tx : Tx) (ht : Nat) : Bytes :=
+  if !tapNone ht ∧ !tapSingle ht then S (serOutputs tx) else []
+
+/-- "data about this input": outpoint, amount, scriptPubKey, nSequence under ANYONECANPAY, else input_index -/
+def tapInputData (tx : Tx) (nIn : Nat) (spent : List TxOut) (ht : Nat) : Bytes :=
+  let inp := tx.vin.getD nIn dfltIn
+  let own := spent.getD nIn blankOut
+  if tapAcp ht then serOutPoint inp.prev ++ (le8s own.value ++ (varBytes own.spk ++ le4 inp.sequence))
+  else le4 nIn
+
+/-- sha_annex: "if an annex is present" -/
+def tapAnnexHash (S : Bytes → Bytes) (annex : Option Bytes) : Bytes :=
+  match annex with
+  | some a => S (varBytes a)
+  | none => []
+
+/-- sha_single_output: "if hash_type & 3 equals SIGHASH_SINGLE" -/
+def tapSingleHash (S : Bytes → Bytes) (tx : Tx) (nIn ht : Nat) : Bytes :=
+  if tapSingle ht then S (serTxOut (tx.vout.getD nIn blankOut)) else []
+
+def tapExtBytes (ext : Option TapExt) : Bytes :=
+  match ext with
+  | some e => e.ser
+  | none => []
+
 /-- BIP341 `SigMsg(hash_type, ext_flag)` preceded by the epoch and followed by BIP342's extension:
     the message whose tagged hash is signed.  `S` stands for SHA256. -/
 def bip341Preimage (S : Bytes → Bytes) (tx : Tx) (nIn : Nat) (spent : List TxOut) (ht : Nat)
     (annex : Option Bytes) (ext : Option TapExt) : Bytes :=
-  let inp := tx.vin.getD nIn dfltIn
-  let own := spent.getD nIn blankOut
   Gen.SigHash.EPOCH ++ ([UInt8.ofNat ht] ++ (le4 tx.version ++ (le4 tx.lockTime ++
-    ((if !tapAcp ht then
-        S (serPrevouts tx) ++ (S (serAmounts spent) ++ (S (serScriptPubKeys spent) ++ S (serSequences tx)))
-      else []) ++
-    ((if !tapNone ht ∧ !tapSingle ht then S (serOutputs tx) else []) ++
-    ([spendType ext annex] ++
-    ((if tapAcp ht then
-        serOutPoint inp.prev ++ (le8s own.value ++ (varBytes own.spk ++ le4 inp.sequence))
-      else le4 nIn) ++
-    ((match annex with | some a => S (varBytes a) | none => []) ++
-    ((if tapSingle ht then S (serTxOut (tx.vout.getD nIn blankOut)) else []) ++
-    (match ext with | some e => e.ser | none => []))))))))))
+    (tapTxHashes S tx spent ht ++ (tapOutputsHash S tx ht ++ ([spendType ext annex] ++
+    (tapInputData tx nIn spent ht ++ (tapAnnexHash S annex ++ (tapSingleHash S tx nIn ht ++
+    tapExtBytes ext)))))))))
 
 /-- `hash_TapSighash(preimage)` with the tagged hash written out over a parameter `S` -/
 def taggedWith (S : Bytes → Bytes) (tag msg : Bytes) : Bytes := S (S tag ++ (S tag ++ msg))
